@@ -445,7 +445,6 @@ func (op *Op) Text() string {
 // selected on an interface the same field of every object type implementing it).
 func (op *Op) RelevantFields() []string {
 	set := map[string]bool{}
-	defs := op.defs()
 	var visit func(sels []*Node, parent string)
 	visit = func(sels []*Node, parent string) {
 		for _, n := range sels {
@@ -466,7 +465,7 @@ func (op *Op) RelevantFields() []string {
 				}
 				visit(n.Kids, t)
 			case KRef:
-				_ = defs // bodies are visited at their KDef
+				// the body is visited at its KDef
 			}
 		}
 	}
@@ -495,8 +494,6 @@ func (op *Op) defs() []*Node {
 // disappears make the candidate invalid (dropped here); remaining re-uses are renumbered.
 func (op *Op) Removals() []*Op {
 	var out []*Op
-	rt := rootType(op.Root)
-	_ = rt
 	// address nodes by pre-order index
 	total := op.Size()
 	for target := 0; target < total; target++ {
